@@ -43,18 +43,21 @@ open QV QV.Writer QV.ServerSafety
 
   Proved below for all operation sequences: (a) the invariant, (b) the size limit, (c) failed
   operations change nothing, (e) no spurious truncation, (f) the extended RCODE, no panic and
-  `finish` succeeds under the hint contract, and (d) the decoding half **in `Disabled`
-  compression mode** (`C12_disabled_refinement`: the independent decoder `specDecodeMsg` reads the
-  finished octets as exactly the questions, records, OPT and TSIG record of the calls that
-  succeeded). For `Standard` / `CasePreserving` mode, where names may be compressed, (d) is proved in
-  two parts: the structure of the finished message for all sequences of calls
-  (`C12_finished_message_decodes_all_modes`: it decodes completely, with exactly the counted
-  questions and records, OPT and TSIG last) and the content record by record
-  (`C12_record_round_trip_all_modes`: owner up to ASCII case / exactly, TYPE, CLASS, TTL, RDLENGTH;
-  C13 has the round trip of every single written name). Not proved: the read-back of names inside
-  RDATA within a whole message and the assembly into one statement about the abstract message —
-  that remains with the oracle (model column of `waudit`, 100 % of generated sessions). The header
-  half of (d) is proved for every mode (`C12_header_all_sequences`). -/
+  `finish` succeeds under the hint contract, and (d) the decoding half **in every compression
+  mode**: `C12_refinement_all_modes` (the specification's decoder `specDecodeMsg` reads the finished
+  octets as the header octets of the writer and exactly the questions, records, OPT and TSIG record
+  of the calls that succeeded, in order; names — QNAME, owners, names inside RDATA, decompressed —
+  equal to the names given up to ASCII case), `C12_refinement_without_standard_mode` (sessions that
+  never use `Standard` mode: the decoded message *equals* the abstract message; for `Disabled` mode
+  alone also `C12_disabled_refinement`, proved from the octets), `C12_header_all_sequences` (what
+  the header octets are). What separates these theorems from `C12_full` as a single statement: the
+  executable `checkSession` walks the reported statuses and compares each item with the mode in
+  effect *when it was written* (the theorems: exact equality when no `Standard` mode occurs in the
+  session, equality up to ASCII case otherwise), it also runs the pointer audit (that is C13,
+  `C13_holds`), and (d) is stated for finished messages of at most 65535 octets (RDLENGTH is a
+  16-bit field; the writer itself accepts larger buffers). The driver evaluates `checkSession`
+  itself on 100 % of the generated sessions (model column and, on the implementation's octets, spec
+  column of `waudit`). -/
 
 def C12_full : Prop :=
   ∀ (buf : Bytes) (limit : Nat) (mode : CMode) (s : State) (ops : List Op) (mac : Option (List UInt8)),
